@@ -1,10 +1,13 @@
 #!/bin/bash
 # usage: seedrun.sh <patch.diff> <prop> [<prop>...]   -- applies the patch to /repo, runs the checks, reverts.
+# Evidence files are rewritten by every run; the ones produced with the patch applied are discarded.
 set -u
 P=$1; shift
 cd /repo && git diff --quiet || { echo "repo dirty"; exit 2; }
+SAVE=$(mktemp -d /tmp/evsave.XXXX); cp -a /verif/evidence/. $SAVE/
 git -C /repo apply $P || exit 2
 for id in "$@"; do
   (cd /verif && bin/govc prop -p $id -tier quick 2>&1 | grep -v "^    \(unsat\)" | tail -12); echo "exit($id)=$?"
 done
 git -C /repo checkout -- .
+cp -a $SAVE/. /verif/evidence/; rm -rf $SAVE
